@@ -127,7 +127,7 @@ def match_known(div, prop, known):
         m = k.get('match', {})
         a = div.get('act', {})
         exp = div.get('exp', {})
-        if m.get('action') and a.get('name') != m['action']:
+        if m.get('action') and a.get('name') not in (m['action'] if isinstance(m['action'], list) else [m['action']]):
             continue
         if m.get('kind') and div.get('kind') != m['kind']:
             continue
